@@ -61,15 +61,16 @@ field Reader.reader
     ensures[eof]    position == recPos(self.gfile, recN(self.gfile)) && tailClean(self.gfile) ==> is(err, io.EOF)
     ensures[damaged] position == recPos(self.gfile, recN(self.gfile)) && !tailClean(self.gfile) ==> is(err, ErrCorrupted) && !is(err, io.EOF)
 
-// ASSUMED (I/O): a reader opened on a path sees the content of the file at that path
+// ASSUMED (I/O): a reader opened on a path sees the content of the file at that path; on an
+// undamaged file it fails only with OS errors (damaged files are the subject of C07/C14)
 func OpenReaderMem
     flags assumed
     ensures err == nil ==> r != nil && fresh(r) && r.gfile == fsContent[path]
-    ensures err != nil ==> ioerr(err) || is(err, ErrCorrupted)
+    ensures err != nil ==> ioerr(err)
 func OpenReader
     flags assumed
     ensures err == nil ==> r != nil && fresh(r) && r.gfile == fsContent[path]
-    ensures err != nil ==> ioerr(err) || is(err, ErrCorrupted)
+    ensures err != nil ==> ioerr(err)
 func (*Reader).Close
     flags assumed
     ensures err != nil ==> ioerr(err)
